@@ -168,7 +168,7 @@ func H_bpm() {
 		set.providerMap, set.srcMap, errs = buildProviderMap(fset, hasher, set)
 		want := expectReject(idx)
 		vA("C05,C11", vImplies(want, len(errs) > 0), "two sources of one type (or a binding without its concrete type in the same set) must be rejected")
-		vA("C10", vImplies(len(errs) > 0, want), "a set whose sources have pairwise distinct types and satisfied bindings must be accepted")
+		vA("C10,C11", vImplies(len(errs) > 0, want), "a set whose sources have pairwise distinct types and satisfied bindings must be accepted")
 		if len(errs) > 0 {
 			vA("C05", set.providerMap == nil && set.srcMap == nil, "nothing is picked: no map is returned together with a conflict")
 			for _, e := range errs {
